@@ -221,6 +221,8 @@ class MaskSplitter(DirectModule):
                 center_x - self.acs_region[0] // 2 : center_x + self.acs_region[0] // 2,
                 center_y - self.acs_region[1] // 2 : center_y + self.acs_region[1] // 2,
             ] = False
+        # `gaussian_fill` selects `nonzero_mask_count + 1` positions of `temp_mask`: never ask for more than it contains.
+        nonzero_mask_count = min(nonzero_mask_count, int(temp_mask.sum()) - 1)
 
         target_mask = torch.zeros_like(mask, dtype=mask.dtype, device=mask.device)
 
